@@ -180,6 +180,7 @@ fn free_cfg() -> Cfg {
         distinct_mode_pct: 100,
         pct_depth: 1,
         churn: None,
+        crowd: None,
         repeat_pct: 0,
     }
 }
